@@ -297,6 +297,10 @@ class _OptResult:
         self.message = message
 
 
+class Captured(Exception):
+    """raised by a stub in 'capture' mode right after recording the call (the caller only wants the closure)"""
+
+
 class OptimizeStub:
     """Assumed contracts:
     root(f, x0): success => f(x) = 0;  minimize(f, x0): success => x is a minimiser (nothing else);
@@ -315,8 +319,16 @@ class OptimizeStub:
 
     def root(self, fun, x0, **kw):
         eng = sx.cur()
+        if self.outcomes == ('capture',):
+            self.calls.append({'kind': 'root', 'fun': fun, 'x0': x0, 'kw': kw, 'x': None, 'success': None})
+            raise Captured()
         ok = self._fork_ok('root')
-        x = eng.fresh('root_x')
+        if hasattr(x0, '__len__') and not isinstance(x0, str) and getattr(x0, 'ndim', 1) >= 1:
+            x = _np.empty(len(x0), dtype=object)
+            for i in range(len(x0)):
+                x[i] = eng.fresh(f'root_x{i}_')
+        else:
+            x = eng.fresh('root_x')
         rec = {'kind': 'root', 'fun': fun, 'x0': x0, 'kw': kw, 'x': x, 'success': ok}
         self.calls.append(rec)
         if ok:
